@@ -707,4 +707,58 @@ theorem holds_congr_cap (c₁ c₂ : CapFn) (h : List (Event κ))
 
 end
 
+/-! ### the counter key IS the allocation table's group (fix F09e) -/
+
+theorem resolve_key_eq_specKey (r : Remedy) (hs : List (String × String)) (key : Key) (wd : WindowData)
+    (h : resolve r hs = .limited key wd) : key = specKey r hs := by
+  unfold resolve at h
+  unfold specKey
+  dsimp only at h
+  repeat' split at h
+  all_goals first
+    | (injection h with h1 h2; subst h1; simp [*, normGroup])
+    | (exact absurd h (by simp))
+    | skip
+
+theorem observe1P_keys (p : PReq) (a : Answer) (e : Event PKey) (h : observe1P p a = some e) :
+    e.key.code = e.key.spec := by
+  unfold observe1P at h
+  cases ho : observe1 p a with
+  | none => rw [ho] at h; simp at h
+  | some e0 =>
+    rw [ho] at h
+    simp only [Option.map_some, Option.some.injEq] at h
+    subst h
+    simp only [rekey]
+    -- the event's key comes from `resolve`
+    unfold observe1 at ho
+    cases hr : resolve p.remedy p.hdrs with
+    | direct a' => rw [hr] at ho; simp at ho
+    | limited key wd =>
+      rw [hr] at ho
+      have hk := resolve_key_eq_specKey _ _ _ _ hr
+      simp only at ho
+      split at ho
+      · simp at ho
+      · split at ho <;> first | (simp only [Option.some.injEq] at ho; subst ho; exact hk) | simp at ho
+
+theorem observeP_keys (ps : List PReq) : ∀ (as : List Answer), ∀ e ∈ observeP ps as, e.key.code = e.key.spec := by
+  induction ps with
+  | nil => intro as e he; simp [observeP] at he
+  | cons p ps ih =>
+    intro as e he
+    cases as with
+    | nil => simp [observeP] at he
+    | cons a as =>
+      simp only [observeP, List.mem_append] at he
+      rcases he with he | he
+      · cases ho : observe1P p a with
+        | none => rw [ho] at he; simp at he
+        | some e0 =>
+          rw [ho] at he
+          simp only [List.mem_singleton] at he
+          subst he
+          exact observe1P_keys p a _ ho
+      · exact ih as e he
+
 end LunarVerif.C09
